@@ -22,7 +22,8 @@ impl SchemaMut {
 		let mut state = WriteCanonicalFormState {
 			w: ErrorConversionWriter(Rabin::default()),
 			named_type_written: vec![false; self.nodes.len()],
-			unnamed_type_being_written: vec![false; self.nodes.len()],
+			unnamed_type_being_written: vec![None; self.nodes.len()],
+			n_named_types_written: 0,
 		};
 		state.write_canonical_form(self, SchemaKey::from_idx(0))?;
 		Ok(state.w.0.finish())
@@ -37,7 +38,8 @@ impl SchemaMut {
 		let mut state = WriteCanonicalFormState {
 			w: ErrorConversionWriter(String::new()),
 			named_type_written: vec![false; self.nodes.len()],
-			unnamed_type_being_written: vec![false; self.nodes.len()],
+			unnamed_type_being_written: vec![None; self.nodes.len()],
+			n_named_types_written: 0,
 		};
 		state.write_canonical_form(self, SchemaKey::from_idx(0))?;
 		Ok(state.w.0)
@@ -49,8 +51,12 @@ struct WriteCanonicalFormState<W> {
 	named_type_written: Vec<bool>,
 	/// Only named types may contain themselves (they are then written by name): an array, map
 	/// or union that ends up containing itself without going through a named type can't be
-	/// written (it would recurse indefinitely)
-	unnamed_type_being_written: Vec<bool>,
+	/// written (it would recurse indefinitely).
+	/// For the unnamed types that are being written, this holds the value of
+	/// `n_named_types_written` when we last started writing them: getting back to them without
+	/// having written any new named type since means we would never stop.
+	unnamed_type_being_written: Vec<Option<usize>>,
+	n_named_types_written: usize,
 }
 
 impl<W: Write> WriteCanonicalFormState<W> {
@@ -71,13 +77,18 @@ impl<W: Write> WriteCanonicalFormState<W> {
 			node.type_,
 			RegularType::Array(_) | RegularType::Map(_) | RegularType::Union(_)
 		);
-		if is_unnamed_container {
-			if std::mem::replace(&mut self.unnamed_type_being_written[key.idx], true) {
+		let previously_being_written = if is_unnamed_container {
+			let previously_being_written = self.unnamed_type_being_written[key.idx]
+				.replace(self.n_named_types_written);
+			if previously_being_written == Some(self.n_named_types_written) {
 				return Err(SchemaError::new(
 					"Schema contains a cycle that can't be avoided using named references",
 				));
 			}
-		}
+			previously_being_written
+		} else {
+			None
+		};
 
 		let mut first_time = true;
 		let should_not_write_only_name =
@@ -85,6 +96,7 @@ impl<W: Write> WriteCanonicalFormState<W> {
 				Ok(match &mut state.named_type_written[key.idx] {
 					b @ false => {
 						*b = true;
+						state.n_named_types_written += 1;
 						true
 					}
 					true => {
@@ -195,7 +207,7 @@ impl<W: Write> WriteCanonicalFormState<W> {
 			}
 		}
 		if is_unnamed_container {
-			self.unnamed_type_being_written[key.idx] = false;
+			self.unnamed_type_being_written[key.idx] = previously_being_written;
 		}
 		Ok(())
 	}
